@@ -31,6 +31,7 @@ def draw_config(rng):
         "stdout": {"kind": rng.choice(STDOUT_KINDS)},
         "logger": {"kind": rng.choice(["default", "default", "error_level", "raising_handler", "debug_level"])},
         "warnings": {"kind": "error" if rng.random() < 0.15 else "always"},
+        "numpy_print": {"kind": rng.choice(["default"] * 8 + ["precision3", "formatter", "threshold"])},
     }
 
 
@@ -235,7 +236,7 @@ class OptEngineBase:
         # config to defaults
         from .world import DEFAULT_CONFIG
 
-        for key in ("clock", "stdout", "logger", "platform", "warnings"):
+        for key in ("clock", "stdout", "logger", "platform", "warnings", "numpy_print"):
             if case.get("config", {}).get(key) and case["config"][key] != DEFAULT_CONFIG[key]:
                 c = copy.deepcopy(case)
                 c["config"][key] = copy.deepcopy(DEFAULT_CONFIG[key])
